@@ -1,12 +1,276 @@
 /-
 Props/C03.lean — property theorems for C03 (Set stores the value at the path and changes nothing else).
+
+`set_correct` is the property at full strength for the *repaired* emitter and assignment library
+(`GenCfg.fixed`): for every well-formed tree whose inspector compiles, every well-typed value a Go
+program can hold, every path, every assigned value and both buffer modes, the destination after
+Set / SetWithBuffer is accepted by the independent specification `setAccepts`: nothing off the path
+changed (`offPathEq`), and where the path denotes an existing scalar / string / bytes element and the
+conversion table says `store`, reading the path back yields the converted value. The outcome mapping is
+the driver's (`opSet`): `.ok r` / `.err r` / `.panic`.
+
+`set_correct_dropCaps` is the same statement for the destination after `dropCaps` — what the driver hands
+to `setAccepts` (`setObsOf`), up to `canon`, the driver-side sort of map entries (not a total Lean function), which cannot be reasoned
+about; `setAccepts` looks map entries up by key and is insensitive to their order when keys are distinct.
+
+Hypotheses beyond C01's (each a decidable `Bool`, Spec/SetHyps.lean, namespace `Inspector.C03`):
+* `EmitOK n`   — the inspector compiles (a `[]byte` map value / slice element has no assignment emitted);
+* `ValOK v`    — nil maps / slices are empty and non-pointer map keys are pairwise distinct;
+* `DepthOK n`  — type nesting ≤ 64 value levels, the fuel of `dropCaps` which `setAccepts` compares under;
+* `SrcWT src`  — the assigned value's dynamic kind describes its value.
+Each is necessary: section `Necessity` has a rejected input of the repaired model for each of them.
+
+The model of the current tree differs on the classes `set-lost-update`, `set-nil-map-store`,
+`set-nil-leaf-ptr`, `negative-index` (`repo_not_correct_*`).
 -/
-import InspectorModel.Gen.Set
-import InspectorModel.Spec.SetSpec
+import InspectorModel.Proofs.C03Stored
+import InspectorModel.Proofs.C03Depth
+import InspectorModel.Proofs.C03Drop
 namespace Inspector.C03
 
 /-- Empty path: SetWithBuffer returns at once; the destination is untouched (compiler.go:373). -/
 theorem empty_path (cfg : GenCfg) (n : Node) (f : Form) (v : Val) (s : Src) (nb : Bool) :
     (match setM cfg n f v [] s nb with | .ok r => r == v | _ => false) = (v == v) := rfl
+
+/-- What the repaired model leaves behind, in the terms `setAccepts` asks about. -/
+theorem setM_fixed_out (n : Node) (v : Val) (p : List Seg) (src : Src) (f : Form) (nb : Bool)
+    (hf : rootOf f = .ok) (hroot : RootOK n = true) (hwf : NodeWF n = true) (hem : EmitOK n = true)
+    (hwt : WT n v = true) (hok : ValOK v = true) (hd : DepthOK n = true) (hsrc : SrcWT src = true) :
+    ∃ a, (setM GenCfg.fixed n f v p src nb = .ok a ∨ setM GenCfg.fixed n f v p src nb = .err a) ∧
+      offPathEq n (dropCaps v) (dropCaps a) p = true ∧
+      (∀ res sv, nav n v p = .found res false → res.node.isLeaf = true → res.node.ptr = false →
+        specConv (leafKind res.node) src = .store sv →
+        ∃ res', nav n a p = .found res' false ∧ valContentEq res'.val sv = true) ∧
+      vdepth v ≤ 64 ∧ vdepth a ≤ 64 := by
+  simp only [DepthOK, decide_eq_true_eq] at hd
+  have hdv : vdepth v ≤ 64 := by have := WT_vdepth n v hwt; omega
+  simp only [RootOK, Bool.and_eq_true, Bool.not_eq_true'] at hroot
+  have hr : rootOfC GenCfg.fixed f = .ok := by
+    unfold rootOfC
+    rw [hf]
+  cases p with
+  | nil =>
+    refine ⟨v, Or.inl rfl, offPathEq_nil _ _ _, ?_, hdv, hdv⟩
+    intro res sv hnav hl _ _
+    simp only [nav, navV] at hnav
+    injection hnav with h1 _
+    subst h1
+    rw [hroot.2] at hl
+    cases hl
+  | cons s rest =>
+    have fr := setN_frame src nb (s :: rest) n v false true hwf hwt hok hd
+    have st := fun res sv => setN_stored src nb sv hsrc (s :: rest) n v false true false res hwf hem hwt hok hd
+      (isBytes_le_isLeaf n hroot.2)
+    unfold setM
+    simp only [hr]
+    generalize setN GenCfg.fixed n false true v (s :: rest) src nb = r at fr st
+    obtain ⟨h1, h2, h3⟩ := fr
+    refine ⟨r.v, ?_, ?_, ?_, hdv, by omega⟩
+    · cases hfl : r.flow with
+      | panic => exact absurd hfl h1
+      | err => right; rfl
+      | ret => left; rfl
+      | cont => left; rfl
+    · rw [dropCaps_eq_D v hdv, dropCaps_eq_D r.v (by omega)]
+      exact h3
+    · intro res sv hnav hl hp hsc
+      exact st res sv hnav hl hp hsc
+
+/-- C03 for the repaired emitter and library, every way a non-nil root reaches the inspector, with and
+without a buffer (`nb`). -/
+theorem set_correct (n : Node) (v : Val) (p : List Seg) (src : Src) (f : Form) (nb : Bool)
+    (hf : rootOf f = .ok) (hroot : RootOK n = true) (hwf : NodeWF n = true) (hem : EmitOK n = true)
+    (hwt : WT n v = true) (hok : ValOK v = true) (hd : DepthOK n = true) (hsrc : SrcWT src = true) :
+    setAccepts n v p src (setM GenCfg.fixed n f v p src nb) = true := by
+  obtain ⟨a, ho, hfr, hst, _, _⟩ := setM_fixed_out n v p src f nb hf hroot hwf hem hwt hok hd hsrc
+  have key : ∀ o, (o = SetOut.ok a ∨ o = SetOut.err a) → setAccepts n v p src o = true := by
+    intro o ho
+    unfold setAccepts
+    split
+    · rfl
+    · rcases ho with ho | ho <;> subst ho <;> simp only [hfr, Bool.true_and]
+      all_goals
+        split
+        · rename_i res hnav
+          split
+          · rename_i hc
+            simp only [Bool.and_eq_true, Bool.not_eq_true'] at hc
+            split
+            · rename_i sv hsc
+              obtain ⟨res', hn', hce⟩ := hst res sv hnav hc.1 hc.2 hsc
+              rw [hn']
+              exact hce
+            · rfl
+          · rfl
+        · rfl
+  exact key _ ho
+
+/-- What the driver's `setObsOf` does to an outcome before it is judged, up to the order of map entries
+(`canon`, the driver-side sort, is not expressible here): capacities and nil-versus-empty are forgotten. -/
+def dropOut : SetOut → SetOut
+  | .ok r => .ok (dropCaps r)
+  | .err r => .err (dropCaps r)
+  | .panic => .panic
+
+/-- `set_correct` for the normalised destination (what the driver hands to `setAccepts`, before `canon`). -/
+theorem set_correct_dropCaps (n : Node) (v : Val) (p : List Seg) (src : Src) (f : Form) (nb : Bool)
+    (hf : rootOf f = .ok) (hroot : RootOK n = true) (hwf : NodeWF n = true) (hem : EmitOK n = true)
+    (hwt : WT n v = true) (hok : ValOK v = true) (hd : DepthOK n = true) (hsrc : SrcWT src = true) :
+    setAccepts n v p src (dropOut (setM GenCfg.fixed n f v p src nb)) = true := by
+  obtain ⟨a, ho, hfr, hst, hdv, hda⟩ := setM_fixed_out n v p src f nb hf hroot hwf hem hwt hok hd hsrc
+  have hDa : dropCaps a = D a := dropCaps_eq_D a hda
+  have hDDa : dropCaps (dropCaps a) = dropCaps a := by
+    rw [hDa, dropCaps_eq_D (D a) (by rw [vdepth_D]; exact hda), D_idem]
+  have key : ∀ o, (o = SetOut.ok (dropCaps a) ∨ o = SetOut.err (dropCaps a)) → setAccepts n v p src o = true := by
+    intro o ho
+    unfold setAccepts
+    split
+    · rfl
+    · rcases ho with ho | ho <;> subst ho <;> simp only [hDDa, hfr, Bool.true_and]
+      all_goals
+        split
+        · rename_i res hnav
+          split
+          · rename_i hc
+            simp only [Bool.and_eq_true, Bool.not_eq_true'] at hc
+            split
+            · rename_i sv hsc
+              obtain ⟨res', hn', hce⟩ := hst res sv hnav hc.1 hc.2 hsc
+              have hn2 := navV_D_found p n a false res' hn'
+              rw [hDa]
+              unfold nav
+              rw [hn2]
+              exact valContentEq_D _ _ (specConv_store_flat _ _ _ hsc) hce
+            · rfl
+          · rfl
+        · rfl
+  rcases ho with ho | ho <;> rw [ho] <;> simp only [dropOut]
+  · exact key _ (Or.inl rfl)
+  · exact key _ (Or.inr rfl)
+
+/-- A typed-nil root is refused like a foreign argument by the repaired emitter: destination untouched. -/
+theorem set_nil_root (n : Node) (v : Val) (p : List Seg) (src : Src) (f : Form) (nb : Bool) (hf : rootOf f ≠ .ok) :
+    (match setM GenCfg.fixed n f v p src nb with | .ok r => r == v | _ => false) = (v == v) := by
+  cases p with
+  | nil => rfl
+  | cons s rest => cases f <;> simp [rootOf] at hf <;> rfl
+
+section NonVacuity
+/-- `struct { L []int; P *int; M map[string]struct{ A int } }` with `L = [3]`, `P = nil`, `M = {"k": {7}}`. -/
+def exNode : Node :=
+  .struct { typn := "T" } [
+    .slice { typn := "[]int", name := "L" } (.basic { typn := "int", typu := "int" }),
+    .basic { typn := "int", typu := "int", name := "P", ptr := true },
+    .map { typn := "map[string]S", name := "M" } (.basic { typn := "string", typu := "string" })
+      (.struct { typn := "S" } [.basic { typn := "int", typu := "int", name := "A" }])]
+def exVal : Val := .struct [.slice false [.int 3] 1, .nilptr, .map false [.str (strBytes "k")] [.struct [.int 7]]]
+/-- `map[string]int`, nil. -/
+def exMapNode : Node := .map { typn := "M" } (.basic { typn := "string", typu := "string" }) (.basic { typn := "int", typu := "int" })
+def exMapVal : Val := .map true [] []
+def seg (t : String) (pi : Option Int := none) : Seg := { text := strBytes t, pi := pi }
+def five : Src := { kind := .int, v := .int 5 }
+
+/-- The hypotheses of `set_correct` are met by concrete non-trivial inputs … -/
+example : RootOK exNode = true ∧ NodeWF exNode = true ∧ EmitOK exNode = true ∧ WT exNode exVal = true ∧
+    ValOK exVal = true ∧ DepthOK exNode = true ∧ SrcWT five = true := by decide
+example : RootOK exMapNode = true ∧ NodeWF exMapNode = true ∧ EmitOK exMapNode = true ∧ WT exMapNode exMapVal = true ∧
+    ValOK exMapVal = true ∧ DepthOK exMapNode = true := by decide
+/-- … on which the repaired model stores the value: `L.0 = 5`, `M.k.A = 5` (a struct held by value in a map). -/
+example : (match setM GenCfg.fixed exNode .ptr exVal [seg "L", seg "0" (some 0)] five true with
+    | .ok r => r == .struct [.slice false [.int 5] 1, .nilptr, .map false [.str (strBytes "k")] [.struct [.int 7]]]
+    | _ => false) = true := by decide
+example : (match setM GenCfg.fixed exNode .ptr exVal [seg "M", seg "k", seg "A"] five true with
+    | .ok r => r == .struct [.slice false [.int 3] 1, .nilptr, .map false [.str (strBytes "k")] [.struct [.int 5]]]
+    | _ => false) = true := by decide
+
+/-- Known finding `set-lost-update`: the model of the current tree assigns to a copy of the scalar slice
+element (`L.0`) and of the struct held by value in a map (`M.k.A`) and returns before the write-back. -/
+theorem repo_not_correct_lost_update :
+    setAccepts exNode exVal [seg "L", seg "0" (some 0)] five
+      (setM GenCfg.repo exNode .ptr exVal [seg "L", seg "0" (some 0)] five true) = false ∧
+    setAccepts exNode exVal [seg "M", seg "k", seg "A"] five
+      (setM GenCfg.repo exNode .ptr exVal [seg "M", seg "k", seg "A"] five true) = false := by
+  decide
+
+/-- Known finding `set-nil-map-store`: a nil root map is stored into (`assignment to entry in nil map`). -/
+theorem repo_not_correct_nil_map_store :
+    setAccepts exMapNode exMapVal [seg "a"] five (setM GenCfg.repo exMapNode .ptr exMapVal [seg "a"] five true) = false := by
+  decide
+
+/-- Known finding `set-nil-leaf-ptr`: a nil `*int` field is handed to AssignBuf, which writes through it. -/
+theorem repo_not_correct_nil_leaf_ptr :
+    setAccepts exNode exVal [seg "P"] five (setM GenCfg.repo exNode .ptr exVal [seg "P"] five true) = false := by
+  decide
+
+/-- Known finding `negative-index`: `L.-1` reaches `s[-1]`. -/
+theorem repo_not_correct_negative_index :
+    setAccepts exNode exVal [seg "L", seg "-1" (some (-1))] five
+      (setM GenCfg.repo exNode .ptr exVal [seg "L", seg "-1" (some (-1))] five true) = false := by
+  decide
+
+/-- … while the repaired model is accepted on each of them (instances of `set_correct`). -/
+example :
+    setAccepts exNode exVal [seg "L", seg "0" (some 0)] five (setM GenCfg.fixed exNode .ptr exVal [seg "L", seg "0" (some 0)] five true) = true ∧
+    setAccepts exMapNode exMapVal [seg "a"] five (setM GenCfg.fixed exMapNode .ptr exMapVal [seg "a"] five true) = true ∧
+    setAccepts exNode exVal [seg "P"] five (setM GenCfg.fixed exNode .ptr exVal [seg "P"] five true) = true := by
+  decide
+end NonVacuity
+
+section Necessity
+/-- `ValOK` is needed (duplicate keys): on a "map" with the key `k` twice the specification rejects even
+the no-op (an unknown field below the entry), because `offEntries` looks every entry up by its key. -/
+theorem ValOK_needed :
+    let n : Node := .map { typn := "M" } (.basic { typn := "string", typu := "string" })
+      (.struct { typn := "S" } [.basic { typn := "int", typu := "int", name := "A" }])
+    let v : Val := .map false [.str (strBytes "k"), .str (strBytes "k")] [.struct [.int 1], .struct [.int 2]]
+    WT n v = true ∧ ValOK v = false ∧
+      setAccepts n v [seg "k", seg "Zzz"] five (setM GenCfg.fixed n .ptr v [seg "k", seg "Zzz"] five true) = false := by
+  decide
+
+/-- `EmitOK` is needed: for a `[]byte` map value the emitter produces no assignment at all (such an
+inspector does not compile, C14 class `bytes-element`). -/
+theorem EmitOK_needed :
+    let n : Node := .map { typn := "M" } (.basic { typn := "string", typu := "string" })
+      (.slice { typn := "[]byte", typu := "[]byte" } (.basic { typn := "byte", typu := "byte" }))
+    let v : Val := .map false [.str (strBytes "k")] [.bytes false [1] 1]
+    WT n v = true ∧ NodeWF n = true ∧ ValOK v = true ∧ EmitOK n = false ∧
+      setAccepts n v [seg "k"] five (setM GenCfg.fixed n .ptr v [seg "k"] five true) = false := by
+  decide
+
+/-- `SrcWT` is needed: for an operand tagged `int` that holds a bool the conversion table and the library
+model disagree (no Go value is like that). -/
+theorem SrcWT_needed :
+    let n : Node := .struct { typn := "T" } [.basic { typn := "bool", typu := "bool", name := "B" }]
+    let bad : Src := { kind := .int, v := .bool true }
+    SrcWT bad = false ∧
+      setAccepts n (.struct [.bool false]) [seg "B"] bad (setM GenCfg.fixed n .ptr (.struct [.bool false]) [seg "B"] bad true) = false := by
+  decide
+
+/-- `struct{ F *struct{ F *… *struct{ A int; B []byte } } }`, `k+1` pointer levels; the value has every
+pointer set but the innermost. -/
+def deepNode : Nat → Node
+  | 0 => .struct { typn := "T0", name := "F", ptr := true } [
+      .basic { typn := "int", typu := "int", name := "A" },
+      .slice { typn := "[]byte", typu := "[]byte", name := "B" } (.basic { typn := "byte", typu := "byte" })]
+  | k + 1 => .struct { typn := "T", name := "F", ptr := true } [deepNode k]
+def deepVal : Nat → Val
+  | 0 => .nilptr
+  | k + 1 => .ptr (.struct [deepVal k])
+def deepPath : Nat → List Seg
+  | 0 => [seg "A"]
+  | k + 1 => seg "F" :: deepPath k
+def rootN (k : Nat) : Node := .struct { typn := "R" } [deepNode k]
+def rootV (k : Nat) : Val := .struct [deepVal k]
+
+set_option maxRecDepth 100000 in
+/-- `DepthOK` is needed: `setAccepts` compares under `dropCaps`, which normalises only 64 levels deep. Below
+that a created `[]byte` field (nil) is compared with its normalised zero value (empty) and rejected. -/
+theorem DepthOK_needed :
+    RootOK (rootN 31) = true ∧ NodeWF (rootN 31) = true ∧ EmitOK (rootN 31) = true ∧
+    WT (rootN 31) (rootV 31) = true ∧ ValOK (rootV 31) = true ∧ DepthOK (rootN 31) = false ∧
+    setAccepts (rootN 31) (rootV 31) (deepPath 32) five
+      (setM GenCfg.fixed (rootN 31) .ptr (rootV 31) (deepPath 32) five true) = false := by
+  decide
+end Necessity
 
 end Inspector.C03
